@@ -15,6 +15,7 @@ import (
 	"sort"
 	"strings"
 
+	"github.com/tikv/pd/server/kv"
 	"github.com/tikv/pd/server/schedule/placement"
 	"pdverif/vkit"
 	"pdverif/vkit/faultkv"
@@ -77,7 +78,8 @@ func genBulk(t *rapid.T) BulkCase {
 		c.Ops = append(c.Ops, BulkOp{K: rapid.SampledFrom([]string{"delRule", "setRule", "delGroup", "setGroup", "delBundle", "restart", "delRule", "delGroup"}).Draw(t, "kind"),
 			Pick: rapid.IntRange(0, 1000).Draw(t, "pick"), Val: rapid.IntRange(0, 5).Draw(t, "val")})
 	}
-	c.Ops = append(c.Ops, BulkOp{K: "restart"}, BulkOp{K: "restart"})
+	// the final restarts: the first one may find rule records under legacy keys (Pick = selection mask, Val = key style)
+	c.Ops = append(c.Ops, BulkOp{K: "restart", Pick: rapid.IntRange(0, 1023).Draw(t, "legacyMask"), Val: rapid.IntRange(0, 2).Draw(t, "legacyStyle")}, BulkOp{K: "restart"})
 	return c
 }
 
@@ -107,9 +109,11 @@ func (m *model) expectedKeys() []string {
 	return ks
 }
 
-func (f *fixture) storedKeys() []string {
+func (f *fixture) storedKeys() []string { return storedKeysOf(f.base) }
+
+func storedKeysOf(b kv.Base) []string {
 	var ks []string
-	for k := range faultkv.Dump(f.base) {
+	for k := range faultkv.Dump(b) {
 		if strings.HasPrefix(k, "rules/") || strings.HasPrefix(k, "rule_group/") {
 			ks = append(ks, k)
 		}
@@ -253,6 +257,9 @@ func runBulk(c BulkCase) (vkit.Info, error) {
 		switch op.K {
 		case "restart":
 			restarts++
+			if moved := relocate(f.base, m, Legacy{Mask: op.Pick}, op.Val); moved > 0 {
+				info.Class("restart-with-legacy-keys")
+			}
 			if f.mgr, err = f.newManager(f.fkv); err != nil {
 				return info, fmt.Errorf("op %d: restart %d on the same storage failed: %v", i, restarts, err)
 			}
